@@ -5,6 +5,8 @@ from .. import asmchecks as AC
 from .. import asmcopy as AK
 from .. import jitdriver as JD
 
+from .. import a64 as X64
+from .. import a64checks as XC
 
 def run(ctx):
     r = ctx.rule("R1", "RegOp -> assembler dispatch calls the namesake builder with operands in form order", 54 + 2)
@@ -54,3 +56,28 @@ def run(ctx):
     r = ctx.rule("R2j", "single-instruction builders use their opcode's instruction family, operand order and data width", 41)
     for kind in AC.ALL:
         ctx.guarded(r, AC.check_simple_builders, kind)
+    # the aarch64 assemblers: this host never compiles them, so a change there passes the suite by construction
+    r = ctx.rule("R5a", "aarch64 builders write only their output register, scratch v0-2 / v4-7 and scratch GPRs; loads and stores only where their clause may", 103)
+    for kind in X64.KINDS:
+        ctx.guarded(r, XC.check_write_discipline, kind)
+    r = ctx.rule("R5b", "aarch64: no path reads an input after the output (alias), a may-be-immediate operand after v3 is clobbered, or an unwritten lane of the output", 107)
+    for kind in X64.KINDS:
+        ctx.guarded(r, XC.check_hazards, kind)
+    r = ctx.rule("R5c", "aarch64: relative branches land on an instruction of their own clause and leave nothing unreachable", 21)
+    for kind in X64.KINDS:
+        ctx.guarded(r, XC.check_branches, kind)
+    r = ctx.rule("R5d", "aarch64 call helpers (symbolic lanes, every operand placement): results in lane order, tape registers and x0-x3 restored", 8)
+    for kind in X64.KINDS:
+        ctx.guarded(r, XC.check_call_helpers, kind)
+    r = ctx.rule("R5e", "aarch64 frame: x19-x30, d8-d15 and sp hold their entry values at `ret` (prologue / helper / epilogue, both frame sizes)", 4)
+    for kind in X64.KINDS:
+        ctx.guarded(r, XC.check_frame, kind)
+    r = ctx.rule("R5f", "aarch64 single-instruction builders use their opcode's instruction, operand order and data width", 42)
+    for kind in X64.KINDS:
+        ctx.guarded(r, XC.check_simple_builders, kind)
+    r = ctx.rule("R5g", "aarch64 strides, register window and loop constants agree with the data types; hash constants agree with the x86_64 siblings", 27)
+    ctx.guarded(r, XC.check_strides)
+    ctx.guarded(r, XC.check_constants)
+    r = ctx.rule("R5h", "aarch64 extern callbacks compute their builder's namesake with arguments in order", 43)
+    ctx.guarded(r, lambda rule, root=None: J.r3_callbacks(rule, root=root, files=J.A64, abi="C"))
+
